@@ -408,6 +408,25 @@ pub fn generate(seed: u64, thorough: bool, emit: &mut dyn FnMut(String)) {
         };
         emit(format!("m{parser} {}", req_string(&text)));
     }
+    // literals at the edges of binary64: subnormal and smallest-normal magnitudes (a decimal with 300+ zeros), the
+    // largest finite values, 17-significant-digit neighbours of 1
+    let zeros = |n: usize| "0".repeat(n);
+    let edge: Vec<(u8, String)> = vec![
+        (1, format!("0.{}7x^2 + 1", zeros(310))),
+        (1, format!("0.{}25x - 0.{}3", zeros(307), zeros(320))),
+        (1, format!("17976931348623157{}x + 2", zeros(292))),
+        (1, "1.0000000000000002x^3 - 0.99999999999999989x".to_string()),
+        (2, format!("0.{}7xy^2 + 1", zeros(310))),
+        (2, format!("0.5/1{}x + y", zeros(309))),
+        (2, format!("2x^0.{}4 - y^-0.{}9", zeros(311), zeros(305))),
+        (2, format!("17976931348623157{}x/3 + 2", zeros(292))),
+        (2, "1.0000000000000002x^0.99999999999999989 - y".to_string()),
+    ];
+    for (parser, text) in edge {
+        if tokenizes(&text) {
+            emit(format!("m{parser} {}", req_string(&text)));
+        }
+    }
     let m = if thorough { 600 } else { 60 };
     for i in 0..m {
         let parser = 1 + (i % 2) as u8;
